@@ -116,13 +116,21 @@ def _compare(sp, spec, ranks, outs, ins, ai, chunk_by_choice, f64=False):
     ks = chunk_options(rows) if chunk_by_choice else [None, 2]
     k = ks[choice(len(ks), "chunk")]
     old_b = set_grad(prog["b"], "b")
+    # history: the same aggregator object may have been applied before to a matrix of the OTHER floating dtype (whether that call succeeds or
+    # raises a dtype error is not this property's business; what it leaves behind in the aggregator is)
+    prior = f64 and ai == 0 and choice(2, "aggregator_applied_before_to_a_float32_matrix") == 1
+    if prior:
+        try:
+            A(T([[R(1)] for _ in range(rows)], torch.float32))
+        except (RuntimeError, TypeError, ValueError):
+            pass
     backward([prog[n] for n in outs], A, inputs=[prog[n] for n in ins], parallel_chunk_size=k)
     twin = Prog(spec, ranks={kk: v + 100 for kk, v in ranks.items()}, dtype=dt)
     set_grad(twin["b"], "b")
     torch.autograd.backward([twin[n] for n in outs], grad_tensors=_split(w, twin, outs), inputs=[twin[n] for n in ins])
     def cex(model):
         return dict(kind="autojac_vs_autograd", spec=spec_json(spec), outputs=outs, inputs=ins, jac=jac_values(model, prog), agg=nm,
-                    w=cex_values(model, w=w)["w"], chunk=k, old={"b": cex_values(model, g=old_b)["g"]}, dtype="float64" if f64 else "float32")
+                    w=cex_values(model, w=w)["w"], chunk=k, old={"b": cex_values(model, g=old_b)["g"]}, dtype="float64" if f64 else "float32", prior_float32=bool(prior))
     obs = []
     for n in prog.leaf_names():
         g1, g2 = grad_list(prog[n]), grad_list(twin[n])
